@@ -5,6 +5,7 @@ package c03
 import (
 	"bytes"
 	"fmt"
+	"sort"
 	"strconv"
 	"strings"
 	"sync"
@@ -226,16 +227,30 @@ func execTCP(c Case) kit.Outcome {
 		return kit.Outcome{Fail: "infrastructure: " + err.Error()}
 	}
 	defer conn.Close()
-	// clean keyspace (cases share one server)
-	if v, err := conn.DoS(5*time.Second, "KEYS", "*"); err == nil {
-		for _, k := range v.Arr {
-			_, _ = conn.Do(2*time.Second, []byte("DEL"), k.Str)
+	// clean keyspace (cases share one server): every database the program may select, then back to 0
+	wipe := func() {
+		dbs := []string{"0"}
+		for _, op := range c.Prog.Ops {
+			if len(op) == 2 && strings.EqualFold(string(op[0]), "select") {
+				if n, err := strconv.Atoi(string(op[1])); err == nil && n > 0 && n < 16 {
+					dbs = append(dbs, strconv.Itoa(n))
+				}
+			}
+		}
+		for i := len(dbs) - 1; i >= 0; i-- {
+			_, _ = conn.DoS(2*time.Second, "SELECT", dbs[i])
+			if v, err := conn.DoS(5*time.Second, "KEYS", "*"); err == nil {
+				for _, k := range v.Arr {
+					_, _ = conn.Do(2*time.Second, []byte("DEL"), k.Str)
+				}
+			}
 		}
 	}
-	_, _ = conn.DoS(2*time.Second, "SELECT", "0")
+	wipe()
 	nonceSeq++
 	nonce := "nonce-" + strconv.Itoa(nonceSeq) + "-" + strconv.FormatInt(time.Now().UnixNano(), 36)
 	var stream []byte
+	var sentOps []kit.Cmd
 	n := 0
 	blocking := 0
 	for _, op := range c.Prog.Ops {
@@ -250,6 +265,7 @@ func execTCP(c Case) kit.Outcome {
 			blocking++
 		}
 		stream = append(stream, respx.EncodeCommand(op.Bytes())...)
+		sentOps = append(sentOps, op)
 		n++
 	}
 	stream = append(stream, respx.EncodeCommand([][]byte{[]byte("PING"), []byte(nonce)})...)
@@ -270,6 +286,7 @@ func execTCP(c Case) kit.Outcome {
 	}()
 	timeout := 5*time.Second + time.Duration(blocking)*1500*time.Millisecond
 	got := 0
+	var piped []respx.Value
 	for {
 		v, err := conn.Read(timeout)
 		if err != nil {
@@ -288,15 +305,87 @@ func execTCP(c Case) kit.Outcome {
 		if v.Kind == respx.Bulk && bytes.Equal(v.Str, []byte(nonce)) {
 			if got != n {
 				o.Fail = fmt.Sprintf("the sentinel's echo arrived after %d replies, but %d commands were pipelined before it: the reply stream is shifted", got, n)
+				return o
 			}
-			return o
+			break
 		}
+		piped = append(piped, v)
 		got++
 		if got > n {
 			o.Fail = fmt.Sprintf("more than %d replies arrived before the sentinel's echo: extra reply %.100s", n, v.String())
 			return o
 		}
 	}
+	// replies appear in the order the commands were sent: the same commands sent one at a time, each
+	// after the previous reply, on the same (emptied) keyspace must get the same replies, position by
+	// position. (Commands whose reply depends on chance or on the clock are left out of the comparison.)
+	if len(sentOps) > 60 || blocking > 3 {
+		return o
+	}
+	wipe()
+	for i, op := range sentOps {
+		v, err := conn.Do(timeout, op.Bytes()...)
+		if err != nil {
+			o.Fail = fmt.Sprintf("command %d %s sent on its own after the pipelined pass got no reply: %v", i, op.String(), err)
+			return o
+		}
+		if taints(op) {
+			break // from here on the keyspace itself depends on chance or on the clock
+		}
+		if !comparable(op) {
+			continue
+		}
+		if a, b := canonReply(op, piped[i]), canonReply(op, v); a != b {
+			o.Fail = fmt.Sprintf("command %d of %d %s: reply %.200s when the commands were pipelined, %.200s when sent one at a time on the same initial keyspace: replies out of order or shifted", i, len(sentOps), op.String(), a, b)
+			return o
+		}
+	}
+	o.Labels = append(o.Labels, "pipelined-replies-compared-with-one-at-a-time")
+	return o
+}
+
+// taints: the command changes the keyspace in a way that depends on chance or on the clock
+func taints(op kit.Cmd) bool {
+	switch strings.ToLower(string(op[0])) {
+	case "spop":
+		return true
+	case "xadd":
+		return !comparable(op)
+	}
+	return false
+}
+
+// comparable: the reply is a function of the commands before it
+func comparable(op kit.Cmd) bool {
+	switch strings.ToLower(string(op[0])) {
+	case "spop", "srandmember", "hrandfield", "ttl", "subscribe", "publish":
+		return false
+	case "xadd":
+		for _, a := range op[1:] {
+			if string(a) == "*" || strings.HasSuffix(string(a), "-*") {
+				return false
+			}
+		}
+	}
+	return true
+}
+
+var unorderedReply = map[string]int{"smembers": 1, "sunion": 1, "sinter": 1, "sdiff": 1, "hkeys": 1, "hvals": 1, "keys": 1, "hgetall": 2}
+
+func canonReply(op kit.Cmd, v respx.Value) string {
+	if step, ok := unorderedReply[strings.ToLower(string(op[0]))]; ok && v.Kind == respx.Array && !v.Null {
+		var items []string
+		for i := 0; i+step <= len(v.Arr); i += step {
+			s := v.Arr[i].String()
+			if step == 2 {
+				s += "=>" + v.Arr[i+1].String()
+			}
+			items = append(items, s)
+		}
+		sort.Strings(items)
+		return "unordered[" + strings.Join(items, " ") + "]"
+	}
+	return v.String()
 }
 
 func TestTCP(t *testing.T) {
